@@ -74,7 +74,16 @@ pub struct Event {
     pub call: u32,
 }
 
+/// Alternative real backends behind the same seam (C18): the library still
+/// sees a `SimDisk`, which passes every call straight through to std's own
+/// `Cursor<Vec<u8>>` or `std::fs::File` implementation.
+pub enum Alt {
+    Cursor(std::io::Cursor<Vec<u8>>),
+    File(std::fs::File),
+}
+
 pub struct DiskState {
+    pub alt: Option<Alt>,
     pub data: Vec<u8>,
     pub pos: u64,
     pub k: u64,
@@ -107,6 +116,7 @@ pub struct SimDisk(pub Rc<RefCell<DiskState>>);
 impl SimDisk {
     pub fn new(data: Vec<u8>) -> SimDisk {
         SimDisk(Rc::new(RefCell::new(DiskState {
+            alt: None,
             data,
             pos: 0,
             k: 0,
@@ -132,16 +142,47 @@ impl SimDisk {
         d.0.borrow_mut().plan = plan;
         d
     }
+    pub fn with_cursor() -> SimDisk {
+        let d = SimDisk::new(Vec::new());
+        d.0.borrow_mut().alt = Some(Alt::Cursor(std::io::Cursor::new(Vec::new())));
+        d
+    }
+    pub fn with_file(f: std::fs::File) -> SimDisk {
+        let d = SimDisk::new(Vec::new());
+        d.0.borrow_mut().alt = Some(Alt::File(f));
+        d
+    }
     pub fn snapshot(&self) -> Vec<u8> {
-        self.0.borrow().data.clone()
+        let mut s = self.0.borrow_mut();
+        match s.alt.as_mut() {
+            None => s.data.clone(),
+            Some(Alt::Cursor(c)) => c.get_ref().clone(),
+            Some(Alt::File(f)) => {
+                use std::io::{Read, Seek, SeekFrom};
+                let pos = f.stream_position().unwrap_or(0);
+                let mut v = Vec::new();
+                let _ = f.seek(SeekFrom::Start(0));
+                let _ = f.read_to_end(&mut v);
+                let _ = f.seek(SeekFrom::Start(pos));
+                v
+            }
+        }
     }
     pub fn len(&self) -> usize {
-        self.0.borrow().data.len()
+        let s = self.0.borrow();
+        match s.alt.as_ref() {
+            None => s.data.len(),
+            Some(Alt::Cursor(c)) => c.get_ref().len(),
+            Some(Alt::File(f)) => f.metadata().map(|m| m.len() as usize).unwrap_or(0),
+        }
     }
     pub fn k(&self) -> u64 {
         self.0.borrow().k
     }
     pub fn image_hash(&self) -> u64 {
+        if self.0.borrow().alt.is_some() {
+            return crate::prng::fnv(&self.snapshot());
+        }
         crate::prng::fnv(&self.0.borrow().data)
     }
     pub fn trace_hash(&self) -> u64 {
@@ -248,6 +289,17 @@ fn other(msg: &str) -> io::Error {
 impl Read for SimDisk {
     fn read(&mut self, buf: &mut [u8]) -> io::Result<usize> {
         let mut s = self.0.borrow_mut();
+        if s.alt.is_some() {
+            s.k += 1;
+            s.seam_counts[Seam::Read as usize] += 1;
+            let r = match s.alt.as_mut().unwrap() {
+                Alt::Cursor(c) => c.read(buf),
+                Alt::File(f) => f.read(buf),
+            };
+            let n = *r.as_ref().unwrap_or(&0) as u64;
+            s.record(Seam::Read, 0, buf.len() as u64, n, r.is_ok());
+            return r;
+        }
         let fault = s.enter(Seam::Read);
         let pos = s.pos;
         let req = buf.len() as u64;
@@ -302,6 +354,18 @@ impl Read for SimDisk {
 impl Write for SimDisk {
     fn write(&mut self, buf: &[u8]) -> io::Result<usize> {
         let mut s = self.0.borrow_mut();
+        if s.alt.is_some() {
+            s.k += 1;
+            s.seam_counts[Seam::Write as usize] += 1;
+            s.writes_in_call += 1;
+            let r = match s.alt.as_mut().unwrap() {
+                Alt::Cursor(c) => c.write(buf),
+                Alt::File(f) => f.write(buf),
+            };
+            let n = *r.as_ref().unwrap_or(&0) as u64;
+            s.record(Seam::Write, 0, buf.len() as u64, n, r.is_ok());
+            return r;
+        }
         let fault = s.enter(Seam::Write);
         s.writes_in_call += 1;
         let pos = s.pos;
@@ -378,6 +442,16 @@ impl Write for SimDisk {
 
     fn flush(&mut self) -> io::Result<()> {
         let mut s = self.0.borrow_mut();
+        if s.alt.is_some() {
+            s.k += 1;
+            s.seam_counts[Seam::Flush as usize] += 1;
+            let r = match s.alt.as_mut().unwrap() {
+                Alt::Cursor(c) => c.flush(),
+                Alt::File(f) => f.flush(),
+            };
+            s.record(Seam::Flush, 0, 0, 0, r.is_ok());
+            return r;
+        }
         let fault = s.enter(Seam::Flush);
         let pos = s.pos;
         match fault {
@@ -401,6 +475,17 @@ impl Write for SimDisk {
 impl Seek for SimDisk {
     fn seek(&mut self, from: SeekFrom) -> io::Result<u64> {
         let mut s = self.0.borrow_mut();
+        if s.alt.is_some() {
+            s.k += 1;
+            s.seam_counts[Seam::Seek as usize] += 1;
+            let r = match s.alt.as_mut().unwrap() {
+                Alt::Cursor(c) => c.seek(from),
+                Alt::File(f) => f.seek(from),
+            };
+            let n = *r.as_ref().unwrap_or(&0);
+            s.record(Seam::Seek, 0, n, 0, r.is_ok());
+            return r;
+        }
         let fault = s.enter(Seam::Seek);
         let pos = s.pos;
         match fault {
